@@ -33,7 +33,9 @@ import (
 //	pburst k=K rounds=R        R times: K goroutines released by a start barrier send the FIRST
 //	                           requests of one fresh remedy key; per round: queues created for the key,
 //	                           immediate NoOp answers, early (429) answers, requests left waiting
-//	preq id=N key=I p=P        one request (sequential scenario) for key I with priority group P
+//	preq id=N key=I p=P [q=Q w=W]  one request (sequential scenario) for remedy NAME I with priority group P,
+//	                           configured with allowed_request_count Q / window_size_in_seconds W (default: pcfg's).
+//	                           The queue key is the FULL QueueKey (name, quota, window): ck = I + 100*Q + 10000*W
 //	ptick d=NS                 the clock advances; due timers fire in (due, registration) order
 type prq struct {
 	id, key int
@@ -49,6 +51,7 @@ type pworld struct {
 	mu      sync.Mutex
 	created map[string]int
 	queues  map[string]*queue.DelayedPriorityQueue
+	byCK    map[int]*queue.DelayedPriorityQueue
 	reqs    map[int]*prq
 	order   []*prq
 	inSel   int
@@ -63,7 +66,7 @@ const rollOwnerBase = -1000 // owner of key i's roll-over timer = rollOwnerBase 
 
 func newPWorld(quota, winsec, size, ttlsec, t0 int64) *pworld {
 	w := &pworld{c: newClk(t0), created: map[string]int{}, queues: map[string]*queue.DelayedPriorityQueue{},
-		reqs: map[int]*prq{}}
+		byCK: map[int]*queue.DelayedPriorityQueue{}, reqs: map[int]*prq{}}
 	w.c.classify = true
 	verifhook.Install(nil) // nobody is held at the yield point in plugin-level cases
 	groups := map[string]sharedConfig.Prioritization{}
@@ -92,23 +95,33 @@ func (w *pworld) initQueue(k queue.QueueKey) queue.DelayedPriorityQueueable {
 		// wait for the roll-over goroutine of this queue to arm its timer and tag it with the key
 		select {
 		case s := <-w.c.rollCh:
-			idx, _ := strconv.Atoi(strings.TrimPrefix(k.RemedyName, "k"))
-			w.c.tag(s, rollOwnerBase-idx)
+			w.c.tag(s, rollOwnerBase-ckOf(k))
 		case <-time.After(settleTimeout):
 			panic("harness: roll-over goroutine of a new queue did not arm its timer")
 		}
 	}
 	w.mu.Lock()
 	w.queues[k.RemedyName] = q
+	w.byCK[ckOf(k)] = q
 	w.mu.Unlock()
 	return q
 }
 
+// ckOf: the full queue key (remedy name index, window quota, window size in s) as one number.
+func ckOf(k queue.QueueKey) int {
+	idx, _ := strconv.Atoi(strings.TrimPrefix(k.RemedyName, "k"))
+	return idx + 100*int(k.Strategy.WindowQuota) + 10000*int(k.Strategy.WindowSize/time.Second)
+}
+
 func (w *pworld) call(id string, key string, prio int) string {
+	return w.callCfg(id, key, prio, &w.cfg)
+}
+
+func (w *pworld) callCfg(id string, key string, prio int, cfg *sharedConfig.StrategyBasedQueueConfig) string {
 	act, err := w.pl.OnRequest(
 		messages.OnRequest{ID: id, Headers: map[string]string{"x-group": "g" + strconv.Itoa(prio)}},
 		config.ScopedRemedy{Remedy: &sharedConfig.Remedy{Enabled: true, Name: key,
-			Config: sharedConfig.RemedyConfig{StrategyBasedQueue: &w.cfg}}})
+			Config: sharedConfig.RemedyConfig{StrategyBasedQueue: cfg}}})
 	if err != nil {
 		return "err"
 	}
@@ -193,9 +206,9 @@ func (w *pworld) burst(k, rounds int, o *proto.Out) string {
 	return fmt.Sprintf("rounds=%d created=%s pass=%s wait=%s rej=%s other=%s", rounds, created, pass, wait, rej, other)
 }
 
-func (w *pworld) countsOf(key string) string {
+func (w *pworld) countsOf(ck int) string {
 	w.mu.Lock()
-	q := w.queues[key]
+	q := w.byCK[ck]
 	w.mu.Unlock()
 	if q == nil {
 		return "-"
@@ -252,7 +265,7 @@ func join(xs []string) string {
 	return strings.Join(xs, ",")
 }
 
-func (w *pworld) req(id, key, prio int) string {
+func (w *pworld) req(id, key, prio int, quota, winsec int64) string {
 	w.mode = "seq"
 	if _, dup := w.reqs[id]; dup {
 		return "bad-op"
@@ -261,10 +274,13 @@ func (w *pworld) req(id, key, prio int) string {
 	w.reqs[id] = r
 	w.order = append(w.order, r)
 	kname := "k" + strconv.Itoa(key)
+	cfg := w.cfg // the remedy as configured at the time of this request
+	cfg.AllowedRequestCount, cfg.WindowSizeInSeconds = quota, int(winsec)
+	ck := key + 100*int(quota) + 10000*int(winsec)
 	w.wg.Add(1)
 	go func() {
 		defer w.wg.Done()
-		r.res <- w.call(strconv.Itoa(id), kname, prio)
+		r.res <- w.callCfg(strconv.Itoa(id), kname, prio, &cfg)
 	}()
 	var a string
 	select {
@@ -294,7 +310,7 @@ func (w *pworld) req(id, key, prio int) string {
 		panic("harness: plugin request neither answered nor parked")
 	}
 	done := w.collect()
-	return fmt.Sprintf("%s done=%s c=%s", a, join(done), w.countsOf(kname))
+	return fmt.Sprintf("%s done=%s c=%s", a, join(done), w.countsOf(ck))
 }
 
 func (w *pworld) tick(d int64) string {
@@ -397,8 +413,19 @@ func execPlugin(c proto.Case, o *proto.Out) []string {
 			id, ok1 := kvI(f, "id")
 			key, ok2 := kvI(f, "key")
 			p, ok3 := kvI(f, "p")
-			if ok1 && ok2 && ok3 && w.mode != "burst" && p < 8 && key < 100 {
-				a = w.req(int(id), int(key), int(p))
+			q, okq := kvI(f, "q")
+			ws, okw := kvI(f, "w")
+			if !okq {
+				q = w.cfg.AllowedRequestCount
+			}
+			if !okw {
+				ws = int64(w.cfg.WindowSizeInSeconds)
+			}
+			if ok1 && ok2 && ok3 && w.mode != "burst" && p < 8 && key < 100 && q < 100 && ws > 0 && ws < 100 {
+				a = w.req(int(id), int(key), int(p), q, ws)
+				if okq || okw {
+					o.Count("preq-with-own-strategy")
+				}
 				o.Count("preq-" + strings.SplitN(strings.Fields(a)[0], ":", 2)[0])
 			}
 		case f[0] == "ptick":
